@@ -442,3 +442,107 @@ func TestCacheObjects(t *testing.T) {
 		}
 	}
 }
+
+// keyed lock pools: one shared hashed table, two tables, two tables taken in both orders
+const poolsTmpl = `package pools
+
+type KM struct{}
+
+func NewHashed(n int) *KM        { return &KM{} }
+func (k *KM) LockKey(s string)   {}
+func (k *KM) UnlockKey(s string) {}
+
+type P struct {
+	podPool *KM
+	dpPool  *KM
+}
+
+func NewP() *P {
+	%s
+}
+
+func (p *P) lockPod(k string) func() { p.podPool.LockKey(k); return func() { p.podPool.UnlockKey(k) } }
+func (p *P) lockDp(k string) func()  { p.dpPool.LockKey(k); return func() { p.dpPool.UnlockKey(k) } }
+
+func (p *P) Filter(k string) {
+	defer p.lockPod(k)()
+	p.inner(k)
+}
+
+func (p *P) inner(k string) { defer p.lockDp("dp_" + k)() }
+
+%s
+`
+
+func analysePools(t *testing.T, ctor, extra string) (*analysis, map[string]heldSet) {
+	t.Helper()
+	dir := t.TempDir()
+	os.MkdirAll(filepath.Join(dir, "pools"), 0o755)
+	src := strings.Replace(strings.Replace(poolsTmpl, "%s", ctor, 1), "%s", extra, 1)
+	if err := os.WriteFile(filepath.Join(dir, "pools", "p.go"), []byte(src), 0o644); err != nil {
+		t.Fatal(err)
+	}
+	savedT, savedKW, savedAl := trackedTypes, keyedWrappers, keyedAliases
+	defer func() { trackedTypes, keyedWrappers, keyedAliases = savedT, savedKW, savedAl }()
+	trackedTypes = map[string]*typeSpec{}
+	keyedWrappers = map[string]bool{"lockPod": true, "lockDp": true}
+	keyedAliases = map[string]string{}
+	a, err := analyseAll(dir, []string{"pools"})
+	if err != nil {
+		t.Fatal(err)
+	}
+	entry := entrySets(a)
+	keyedPools(a)
+	return a, entry
+}
+
+func TestKeyedPools(t *testing.T) {
+	two := "return &P{podPool: NewHashed(10), dpPool: NewHashed(10)}"
+	shared := "km := NewHashed(10)\n\treturn &P{podPool: km, dpPool: km}"
+	// two tables: nesting across distinct tables, nothing re-entrant
+	a, entry := analysePools(t, two, "")
+	pools := keyedPools(a)
+	if pools["keyed:pools.lockPod"] == pools["keyed:pools.lockDp"] || len(pools) != 2 {
+		t.Fatalf("two tables expected, got %v", pools)
+	}
+	if r := reentrantCalls(a, entry); len(r) != 0 {
+		t.Errorf("two tables: unexpected re-entrant acquisitions %v", r)
+	}
+	ns := keyedNestingPairs(a, entry)
+	if len(ns) == 0 {
+		t.Errorf("nesting pod->dp not found")
+	}
+	for _, n := range ns {
+		parts := strings.SplitN(strings.SplitN(n, "@", 2)[0], "->", 2)
+		if parts[0] == parts[1] {
+			t.Errorf("two tables: nesting inside one table: %s", n)
+		}
+	}
+	// one shared table: the same nesting is now inside one table and counts as a possible re-acquisition
+	a, entry = analysePools(t, shared, "")
+	pools = keyedPools(a)
+	if pools["keyed:pools.lockPod"] != pools["keyed:pools.lockDp"] {
+		t.Fatalf("shared table expected, got %v", pools)
+	}
+	got := strings.Join(reentrantCalls(a, entry), " ")
+	if !strings.Contains(got, "reentrant-lock:keyed:pools.lockPod@pools.P.Filter->pools.P.inner") {
+		t.Errorf("shared table: nesting not flagged: %q", got)
+	}
+	// two tables, but one function takes them in the reverse order: both order edges exist (a cycle)
+	a, entry = analysePools(t, two, "func (p *P) Reverse(k string) {\n\tdefer p.lockDp(k)()\n\tdefer p.lockPod(k)()\n}")
+	ns = keyedNestingPairs(a, entry)
+	edges := map[string]bool{}
+	for _, n := range ns {
+		edges[strings.SplitN(n, "@", 2)[0]] = true
+	}
+	cyc := false
+	for e := range edges {
+		p := strings.SplitN(e, "->", 2)
+		if edges[p[1]+"->"+p[0]] {
+			cyc = true
+		}
+	}
+	if !cyc {
+		t.Errorf("reversed order not visible in the nestings: %v", ns)
+	}
+}
